@@ -22,12 +22,14 @@ Check(c, o) ==
 
 \* process level: the real binary, SIGTERM / SIGINT at a point of a slow request
 \* repeat: a second stop signal ("TERM"/"INT") 300 ms after the first, while the request is still draining ("none" = one signal)
-ProcCases == {c \in [sig : {"TERM", "INT"}, point : {"idle", "before_headers", "mid_body"}, probing : BOOLEAN, repeat : {"none", "TERM", "INT"}] :
-                c.repeat # "none" => (c.point # "idle" /\ ~c.probing)}
+\* point "outlasts": the request in flight takes longer (7 s) than the shutdown timeout (4 s): it may be cut, the bound holds
+ProcCases == {c \in [sig : {"TERM", "INT"}, point : {"idle", "before_headers", "mid_body", "outlasts"}, probing : BOOLEAN, repeat : {"none", "TERM", "INT"}] :
+                /\ (c.repeat # "none" => (c.point \notin {"idle", "outlasts"} /\ ~c.probing))
+                /\ (c.point = "outlasts" => c.sig = "TERM")}
 \* o = [exit (exit status, -1 = killed by the harness after the bound), ms, status (in-flight request), complete (full body)]
 CheckProc(c, o) ==
   (IF o.exit # 0 THEN <<"ExitStatus">> ELSE <<>>)
   \o (IF o.ms > 4000 + 1500 THEN <<"ShutdownTooSlow">> ELSE <<>>)
-  \o (IF c.point # "idle" /\ (o.status # 200 \/ ~o.complete) THEN <<"InFlightRequestCut">> ELSE <<>>)
+  \o (IF c.point \notin {"idle", "outlasts"} /\ (o.status # 200 \/ ~o.complete) THEN <<"InFlightRequestCut">> ELSE <<>>)
   \o (IF o.probes_after > 0 THEN <<"ProbeAfterExit">> ELSE <<>>)
 =============================================================================
